@@ -18,18 +18,18 @@ import (
 	"encoding/binary"
 )
 
-func (s *Segment) getDocStoredMetaAndUnCompressed(docNum uint64) (meta, data []byte, err error) {
-	_, storedOffset, n, metaLen, dataLen, err := s.getDocStoredOffsets(docNum)
+func (s *Segment) getDocStoredMetaAndUnCompressed(vdc *visitDocumentCtx, docNum uint64) (meta, data []byte, err error) {
+	_, storedOffset, n, metaLen, dataLen, err := s.getDocStoredOffsets(vdc, docNum)
 	if err != nil {
 		return nil, nil, err
 	}
 
-	meta = s.storedFieldChunkUncompressed[int(storedOffset+n):int(storedOffset+n+metaLen)]
-	data = s.storedFieldChunkUncompressed[int(storedOffset+n+metaLen):int(storedOffset+n+metaLen+dataLen)]
+	meta = vdc.buf[int(storedOffset+n):int(storedOffset+n+metaLen)]
+	data = vdc.buf[int(storedOffset+n+metaLen):int(storedOffset+n+metaLen+dataLen)]
 	return meta, data, nil
 }
 
-func (s *Segment) getDocStoredOffsets(docNum uint64) (indexOffset, storedOffset, n, metaLen, dataLen uint64, err error) {
+func (s *Segment) getDocStoredOffsets(vdc *visitDocumentCtx, docNum uint64) (indexOffset, storedOffset, n, metaLen, dataLen uint64, err error) {
 	indexOffset, storedOffset, err = s.getDocStoredOffsetsOnly(docNum)
 	if err != nil {
 		return 0, 0, 0, 0, 0, err
@@ -43,8 +43,9 @@ func (s *Segment) getDocStoredOffsets(docNum uint64) (indexOffset, storedOffset,
 	if err != nil {
 		return 0, 0, 0, 0, 0, err
 	}
-	s.storedFieldChunkUncompressed = s.storedFieldChunkUncompressed[:0]
-	s.storedFieldChunkUncompressed, err = ZSTDDecompress(s.storedFieldChunkUncompressed[:cap(s.storedFieldChunkUncompressed)], compressed)
+	// decompress into the buffer of this call's context: a segment is shared by
+	// concurrent and nested readers, so it must not hold per-call scratch state
+	vdc.buf, err = ZSTDDecompress(vdc.buf[:cap(vdc.buf)], compressed)
 	if err != nil {
 		return 0, 0, 0, 0, 0, err
 	}
@@ -53,12 +54,12 @@ func (s *Segment) getDocStoredOffsets(docNum uint64) (indexOffset, storedOffset,
 	// the length prefixes are read from what is left of the block: a fixed
 	// look-ahead of MaxVarintLen64 bytes can reach past the end of the buffer
 	// when the document's record is short and sits at the end of the block
-	metaLenData := s.storedFieldChunkUncompressed[int(storedOffset):]
+	metaLenData := vdc.buf[int(storedOffset):]
 	var read int
 	metaLen, read = binary.Uvarint(metaLenData)
 	n += uint64(read)
 
-	dataLenData := s.storedFieldChunkUncompressed[int(storedOffset+n):]
+	dataLenData := vdc.buf[int(storedOffset+n):]
 	dataLen, read = binary.Uvarint(dataLenData)
 	n += uint64(read)
 
